@@ -4,8 +4,8 @@ R = os.path.dirname(os.path.dirname(os.path.abspath(__file__)))
 jsonschema.validate(json.load(open(R+'/MANIFEST.json')), json.load(open('/root/.vp/MANIFEST.schema.json')))
 print("MANIFEST ok")
 sch = json.load(open('/root/.vp/EVIDENCE.schema.json'))
-for f in sorted(glob.glob(R+'/evidence/*.json')):
+for f in sorted(glob.glob(R+'/evidence/*.json') + glob.glob(R+'/evidence-thorough/*.json')):
     try:
-        jsonschema.validate(json.load(open(f)), sch); print(os.path.basename(f), 'ok')
+        jsonschema.validate(json.load(open(f)), sch); print(os.path.relpath(f, R), 'ok')
     except Exception as e:
         print(os.path.basename(f), 'INVALID', str(e)[:300])
